@@ -91,6 +91,16 @@ def calcRes (s : DState) (r : Except Err (Prism Float × String)) : DState × St
 
 def step (s : DState) (toks : List String) : DState × String :=
   match toks with
+  -- ---------------- C11 DiscreteKoyama constructor logic and kernel parameters
+  | ["koyama.ctor", sg, l, lp] =>
+      let σ := hexToFloat sg; let l := hexToFloat l; let lp := hexToFloat lp
+      (s, s!"{koyamaCtorOK σ l lp} {if koyamaCtorOK σ l lp then toString (koyamaLinearised σ l lp) else "-"} {floatToHex (koyamaLpMin σ l)}")
+  | "koyama.base" :: l :: c1 :: c2 :: ns =>
+      let l := hexToFloat l; let c1 := hexToFloat c1; let c2 := hexToFloat c2
+      (s, " ".intercalate ((nats ns).map fun n =>
+        let (r2, r4) := koyamaBase l c1 c2 n
+        let (C, B, A) := koyamaParams r2 r4
+        s!"{floatToHex r2} {floatToHex r4} {floatToHex C} {floatToHex B} {floatToHex A}"))
   -- ---------------- C02 analytic references: wt eta | r...
   | "wt" :: eta :: rs =>
       let η := hexToFloat eta
